@@ -114,7 +114,7 @@ PROPS["C08"] = dict(pkg="c08", shards=16, level="fault_enumeration",
 
 PROPS["C06"] = dict(pkg="c06", shards=16, level="exploration", overlay=True,
     technique="schedule exploration by systematic delay injection: a build overlay generated from the working tree yields before every statement of the ATP client and server; single-delay sweep over every reached point (exhaustive), pair sweep and rapid-generated plans; oracle = every Execute returns exactly once with its own result, Close and the server return, no client goroutine remains; hangs are only reported under a quiescence proof",
-    level_text="Exploration of a delay-bounded subset of schedules: every statement of atp/client.go and atp/server.go is a yield point (re-derived from the working tree on every run); the quick tier delays each reached point at its first and second occurrence on five session histories (exhaustive for that plan space), the thorough tier adds all ordered pairs of points on two histories and generated 1-3-delay plans. Real client and server over unbuffered pipes.",
+    level_text="Exploration of a delay-bounded subset of schedules: every statement of atp/client.go and atp/server.go is a yield point (re-derived from the working tree on every run); the quick tier delays each reached point at its first and second occurrence on eleven session histories (eight against the real server, three against a correctly behaving harness peer that emits signals; exhaustive for that plan space), the thorough tier adds all ordered pairs of points on two histories and generated 1-3-delay plans. Real client and server over unbuffered pipes.",
     level_note="Not all interleavings: only those reachable by one to three injected delays on the statement grid. Liveness is judged on bounded histories: a call is reported as hanging only if all delays are over and two goroutine dumps 300 ms apart are identical and fully parked; anything else that exceeds the bounds is counted as inconclusive, never as a violation.",
     cap_s={"quick": 900, "thorough": 3400})
 
